@@ -1352,6 +1352,11 @@ class Kconfig(object):
         with self._open_config(filename) as f:
             if replace:
                 self.missing_syms = []
+                if is_main_sdkconfig:
+                    # Forget what the previously loaded file said: options absent from this file have no baseline
+                    for sym in self.unique_defined_syms:
+                        sym._sdkconfig_value = None
+                        sym._loaded_as_default = False
 
                 # _was_set: If we're replacing the configuration, keep track of which
                 #           symbols and choices got set so that we can unset the rest
